@@ -39,7 +39,8 @@ def plan(tier, prop):
                 "slices), then a healed alloc+write+read-back; non-trivial = "
                 "at least one view operation completed; distinct = distinct "
                 "abstract event traces",
-        "expected_probes": ["slice_of_slice", "truncated_write",
+        "expected_probes": ["view_object_dropped", "truncation_warning_as_error", "numpy_slice_bounds",
+                            "slice_of_slice", "truncated_write",
                             "truncated_read", "seek_negative", "seek_beyond",
                             "seek_end", "op_after_close", "op_after_free",
                             "alloc_failed", "zero_length_view", "with_block",
